@@ -239,6 +239,9 @@ func genGroup(r *rand.Rand, idx int) []*Case {
 	// consumer: every documented kind, a pre-state each
 	for _, kind := range append(append([]string{}, destRecordKinds...), destByteKinds...) {
 		c := &Case{Dir: "consume", Kind: kind, Text: mon.Q(text), Opts: o, S: genReadScript(r, len(text), 6)}
+		if r.Intn(5) == 0 {
+			c.Warm = 1 + r.Intn(2)
+		}
 		if isIn(destTableKinds, kind) {
 			switch r.Intn(9) {
 			case 8:
@@ -283,6 +286,9 @@ func genGroup(r *rand.Rand, idx int) []*Case {
 	// producer: every source kind
 	for _, kind := range append(append([]string{}, srcTextKinds...), srcTableKinds...) {
 		c := &Case{Dir: "produce", Kind: kind, Text: mon.Q(text), Opts: o, S: genWriteScript(r, len(text)+8, 6)}
+		if r.Intn(5) == 0 {
+			c.Warm = 1 + r.Intn(2)
+		}
 		switch kind {
 		case "*csv.Reader", "reader", "readcloser", "writerto":
 			c.O = genReadScript(r, len(text), 6)
